@@ -411,6 +411,133 @@ func probe() {
 		r.ttl = 7200
 		emit(r.line()...)
 	}
+	// 4d. the self-signed CA as istiod runs it: rootCertFile, root-cert rotator running; the REAL rotator replaces the root
+	header("ca-selfrot")
+	emit("ca", "selfrot", "7200", "-", "1", "1800", "86400")
+	emit("na", "-")
+	{
+		r := base()
+		emit(r.line()...)
+		r.ttl = 86400
+		emit(r.line()...) // clamped to the root
+		emit("rot", "7200", "-")
+		emit(r.line()...) // clamped to the new root
+		r.ttl = 0
+		emit(r.line()...)
+	}
+	// 4e. a zero maximum TTL: positive requests refused, a defaulted lifetime capped to nothing (NotAfter = now): observation
+	header("zero-max")
+	emit("ca", "plug", "86400", "86400", "1", "3600", "0")
+	emit("na", "-")
+	for _, ttl := range []int64{0, -1, 1} {
+		r := base()
+		r.ttl = ttl
+		emit(r.line()...)
+	}
+	// 4f. CSRs: one corrupted byte at 16 places, a second PEM block, a garbage block in front, RSA-PSS, unknown key type, RSA-1024
+	header("csr-corruption")
+	emit("ca", "plug", "86400", "86400", "1", "3600", "86400")
+	emit("na", "-")
+	for i := 0; i < 64; i += 4 {
+		r := base()
+		r.csr.form = fmt.Sprint("flip", i)
+		emit(r.line()...)
+	}
+	for _, form := range []string{"multi", "multibad", "pss", "unkkey"} {
+		r := base()
+		r.csr.form = form
+		emit(r.line()...)
+	}
+	{
+		r := base()
+		r.csr.key = "rsa1024"
+		emit(r.line()...)
+	}
+	// 4g. ImpersonatedIdentity / CertSigner metadata values that are not strings: number, list, struct, bool, null
+	header("metadata-value-kinds")
+	emit("ca", "plug", "86400", "86400", "1", "3600", "86400")
+	emit(na...)
+	for _, k := range []string{"n", "l", "o", "b", "z", "s:~"} {
+		r := base()
+		r.imp, r.signer = k, k
+		emit(r.line()...)
+	}
+	// 4h. the same pod name in several namespaces of a cluster: the caller's pod is found by namespace AND name (four
+	// copies of the world: a lookup by name alone would depend on the informer's iteration order)
+	header("pod-name-in-several-namespaces")
+	emit("ca", "plug", "86400", "86400", "1", "3600", "86400")
+	for copy := 0; copy < 4; copy++ {
+		twins := []podSpec{{name: "zt", ns: "a", uid: "u7", sa: "ztunnel", node: "n2"}, {name: "zt", ns: "istio-system", uid: "u1", sa: "ztunnel", node: "n1"},
+			{name: "p1", ns: "a", uid: "u2", sa: "b", node: "n1"}, {name: "p1", ns: "c", uid: "u3", sa: "d", node: "n2"}, {name: "zt", ns: "c", uid: "u8", sa: "ztunnel", node: "n2"},
+			{name: fmt.Sprint("filler", copy), ns: "a", uid: "u9", sa: "x", node: "n1"}}
+		emit("na", wire.EncList([]string{"istio-system/ztunnel"}), "1", "c1", encPods(twins))
+		for _, k := range [][5]string{{"zt", "istio-system", "u1", "ztunnel", "a/sa/b"}, {"zt", "a", "u7", "ztunnel", "c/sa/d"}, {"zt", "istio-system", "u7", "ztunnel", "c/sa/d"},
+			{"zt", "istio-system", "u8", "ztunnel", "c/sa/d"}, {"zt", "istio-system", "u1", "ztunnel", "c/sa/d"}} {
+			r := base()
+			r.outs[0].kube = kinfo(k[0], k[1], k[2], k[3])
+			r.imp = "s:" + wire.Enc("spiffe://cluster.local/ns/"+k[4])
+			emit(r.line()...)
+		}
+	}
+	// 4i. the transport gate of security.Authenticate: an AuthInfo that is not TLS, plaintext with / without XDS_AUTH_PLAINTEXT -
+	// with authenticators (scripted and REAL) that accept the caller
+	header("transport-gate")
+	emit("ca", "plug", "86400", "86400", "1", "3600", "86400")
+	emit(na...)
+	for _, fl := range [][3]bool{{false, true, false}, {false, true, true}, {false, false, false}, {false, false, true}, {true, false, false}} {
+		r := base()
+		r.tls, r.other, r.plaintext = fl[0], fl[1], fl[2]
+		emit(r.line()...)
+	}
+	{
+		good := reviewSpec{authenticated: true, groups: []string{"system:serviceaccounts", "system:authenticated"},
+			username: "system:serviceaccount:istio-system:ztunnel", podName: "=zt", podUID: "=u1"}
+		kube := kubeSpecTokens("cluster.local", "c1", nil, "nil", "c1", "bearer", "node-proxy-token", []string{"istio-ca"}, good)
+		leaf := wire.Enc("san:" + wire.EncList([]string{"U:spiffe://cluster.local/ns/a/sa/b"}))
+		cert := []string{"cert", "grpc", "tls", wire.EncList([]string{leaf})}
+		for _, mode := range []string{"", "plain", "noauth", "other", "otherplain"} {
+			a := reqaSpec{spec: kube, req: reqSpec{csr: csrSpec{form: "ok", key: "ec256-a"}, ttl: 600, imp: "-", signer: "-", cluster: "c1", mode: mode}}
+			emit(a.line()...)
+			a.req.imp = "s:" + wire.Enc("spiffe://cluster.local/ns/a/sa/b")
+			emit(a.line()...)
+			a.spec, a.req.imp = cert, "-"
+			emit(a.line()...) // a client certificate cannot be presented without TLS
+			m := reqmSpec{specs: [][]string{cert, kube}, req: a.req}
+			emit(m.line()...)
+		}
+	}
+	// 4j. the mesh config's trust domain changes while authenticators exist: identities follow the mesh config
+	header("mesh-trust-domain")
+	emit("ca", "plug", "86400", "86400", "1", "3600", "86400")
+	emit(na...)
+	{
+		good := reviewSpec{authenticated: true, groups: []string{"system:serviceaccounts", "system:authenticated"},
+			username: "system:serviceaccount:istio-system:ztunnel", podName: "=zt", podUID: "=u1"}
+		kube := kubeSpecTokens("cluster.local", "c1", nil, "nil", "c1", "bearer", "node-proxy-token", []string{"istio-ca"}, good)
+		oidc := []string{"oidc", "grpc", "cluster.local", "istio-ca", "bearer", "ok", wire.Enc("system:serviceaccount:ns1:sa1"), "list", "istio-ca"}
+		both := func() {
+			for _, sp := range [][]string{kube, oidc} {
+				a := reqaSpec{spec: sp, req: reqSpec{csr: csrSpec{form: "ok", key: "ec256-a"}, ttl: 600, imp: "-", signer: "-", cluster: "c1"}}
+				emit(a.line()...)
+			}
+		}
+		both()
+		emit("mesh", "new.td")
+		both()
+		a := reqaSpec{spec: kube, req: reqSpec{csr: csrSpec{form: "ok", key: "ec256-a"}, ttl: 600, imp: "s:" + wire.Enc("spiffe://new.td/ns/a/sa/b"), signer: "-", cluster: "c1"}}
+		emit(a.line()...)
+		emit("mesh", "cluster.local")
+		both()
+	}
+	// 4k. a federated trust domain: only the X.509-SVID entries of its SPIFFE bundle are trust roots
+	header("federated-trust-domain")
+	emit("ca", "plug", "86400", "86400", "1", "3600", "86400")
+	emit("na", "-")
+	for _, c := range [][2]string{{"td1=@x:R1;j:RX", "R1"}, {"td1=@x:R1;j:RX", "RX"}, {"td1=@j:RX", "RX"}, {"td1=@x:R1+RX", "R1"}, {"td1=@x:R1;x:R2", "R2"}} {
+		a := reqaSpec{spec: []string{"tlscert", "grpc", wire.EncList([]string{c[0]}), leafSpec{issuer: c[1], sans: []string{"U:spiffe://td1/ns/a/sa/b"}, when: "ok", eku: "both"}.tok(), "-"},
+			req: reqSpec{csr: csrSpec{form: "ok", key: "ec256-a"}, ttl: 600, imp: "-", signer: "-", cluster: "-"}}
+		emit(a.line()...)
+	}
 	// 5. no signer / expired signer / expired chain
 	for _, k := range []string{"nosigner", "expired", "expiredchain"} {
 		header(k)
@@ -545,6 +672,35 @@ func probeAuthn() {
 	emit("authn", "tlscert", "grpc", pools, lf("R2", "ok", "both", "U:Spiffe://td1/ns/a/sa/b"), "-")
 	emit("authn", "tlscert", "grpc", pools, "nocert", "-")
 	emit("authn", "tlscert", "grpc", "-", lf("R1", "ok", "both", "U:spiffe://td1/ns/a/sa/b"), "-")
+	// federated trust domains: what a SPIFFE bundle contributes (only x509-svid entries with exactly one certificate)
+	emit("case", "6", "authn", "spiffe-bundles")
+	for _, b := range tlsBundles {
+		for _, iss := range []string{"R1", "RX", "R2"} {
+			emit("authn", "tlscert", "grpc", wire.EncList([]string{"td1=" + b}), lf(iss, "ok", "both", "U:spiffe://td1/ns/a/sa/b"), "-")
+		}
+	}
+	emit("authn", "tlscert", "grpc", wire.EncList([]string{"td1=@x:R1", "td2=@j:RX"}), lf("R1", "ok", "both", "U:spiffe://td1/ns/a/sa/b"), "-") // one refused bundle: no server
+	emit("authn", "tlscert", "grpc", wire.EncList([]string{"td1=@x:R1", "td1=R3"}), lf("R3", "ok", "both", "U:spiffe://td1/ns/a/sa/b"), "-")
+	emit("authn", "tlscert", "grpc", wire.EncList([]string{"td1=@x:R1", "td2=@x:R2"}), lf("R2", "ok", "both", "U:spiffe://td1/ns/a/sa/b"), "-")
+	// the mesh config's trust domain changes after the authenticators were constructed
+	emit("case", "7", "authn", "mesh-trust-domain")
+	{
+		good := reviewSpec{authenticated: true, groups: []string{"system:serviceaccounts", "system:authenticated"},
+			username: "system:serviceaccount:istio-system:ztunnel", podName: "=zt", podUID: "=u1"}
+		both := func() {
+			for _, tr := range []string{"grpc", "http"} {
+				oidc(tr, "cluster.local", "istio-ca", "bearer", "ok", e("system:serviceaccount:ns1:sa1"), "list", "istio-ca")
+				emit("authn", "kube", tr, "cluster.local", "Kubernetes", "-", "nil", "-", "bearer", e("tok-1"), "istio-ca", good.tok())
+			}
+		}
+		both()
+		emit("mesh", "new.td")
+		both()
+		emit("mesh", e("td@corp"))
+		both()
+		emit("mesh", "cluster.local")
+		both()
+	}
 	// kube JWT: cluster selection, token and audience binding, review outcomes, both transports
 	emit("case", "5", "authn", "kube")
 	good := reviewSpec{authenticated: true, groups: []string{"system:serviceaccounts", "system:authenticated"},
